@@ -101,6 +101,7 @@ class SimConn:
         s._rx_err = errno.ECONNRESET
         self.net.rec('net-rst', cid=self.cid)
         s._wake_reader()
+        s._wake_writer()  # a writer blocked on a closed window fails with ECONNRESET as well
         s._wake_writer()
 
     def set_window(self, nbytes: int | None) -> None:
